@@ -146,6 +146,29 @@ def impl_case(case):
     except Exception as e:
         out['length'] = 'err ' + type(e).__name__
         fail = fail or f'length raised {type(e).__name__}: {e}'
+    if ty != 2 and fail is None and isinstance(out.get('iter'), list):
+        # observations may overlap: length read inside a loop over the file, two iterators of one file side by side
+        try:
+            nested = []
+            for m in mid:
+                nested.append(m.time)
+                _ = mid.length
+            it1, it2 = iter(mid), None
+            a, b = [], []
+            for k in range(2 * len(out['iter']) + 2):
+                if k == 1:
+                    it2 = iter(mid)
+                for it, acc in ((it1, a), (it2, b)):
+                    if it is not None:
+                        m = next(it, None)
+                        if m is not None:
+                            acc.append(m.time)
+            if nested != out['iter']:
+                fail = f'message times seen by a loop that reads mid.length inside differ from a plain iteration: {nested[:8]} vs {out["iter"][:8]}'
+            elif a != out['iter'] or b != out['iter']:
+                fail = f'two iterators of one file running side by side see {a[:8]} / {b[:8]}, a single iteration {out["iter"][:8]}'
+        except Exception as e:
+            fail = f'overlapping observations raised {type(e).__name__}: {e}'
     if ty != 2 and fail is None:
         cum = 0.0
         if len(msgs) != len(merged):
